@@ -276,7 +276,21 @@ func exclusiveC10(c *Ctx) {
 				zero := func(v ssa.Value) bool { k, isK := v.(*ssa.Const); return isK && k.Value == nil }
 				return either(b, loadOfField("exclusiveItem.ts"), zero)
 			})
+			// (or item.ts.IsZero())
+			cifs, cnegs := P.IfsOn(q.fn, func(cond ssa.Value) bool {
+				call, ok := cond.(*ssa.Call)
+				return ok && P.CalleeName(&call.Call) == "(time.Time).IsZero" && len(call.Call.Args) == 1 && loadOfField("exclusiveItem.ts")(call.Call.Args[0])
+			})
 			okz := false
+			for i, zi := range cifs {
+				zs := 0
+				if cnegs[i] {
+					zs = 1
+				}
+				if q.onlyViaEdge(st, zi, zs) {
+					okz = true
+				}
+			}
 			for i, zi := range zifs {
 				zs := 0
 				if znegs[i] {
